@@ -112,6 +112,7 @@ class WorldTrack:
         self.epoch = 0        # bumped by every op that may change the world (C13)
         self.clone_of = None  # (source world index, source epoch at clone time, token map)
         self.probes = {}      # var -> (epoch, fields) of the last probe in this world (C13)
+        self.issued_before_clone = set()
 
     def by_token(self, toks):
         for words, (a, row) in self.live.items():
@@ -138,6 +139,7 @@ class WorldTrack:
         w.var_dead = dict(self.var_dead)
         w.removals = defaultdict(int, self.removals)
         w.issued = list(self.issued)
+        w.issued_before_clone = set(self.issued)
         w.dead = set(self.dead)
         w.caps = self.caps
         w.created = defaultdict(list, {k: list(v) for k, v in self.created.items()})
@@ -183,6 +185,7 @@ def check_seq(seq, stats):
     wrapped = False   # a generation may have wrapped (only under wrapping_version + preset)
     prev_summary = None
     preset_used = False
+    panic_seen = False
     for (no, op, obs, summ, raw) in seq.lines:
         w = worlds[cur] if cur < len(worlds) else None
         kind = op[0]
@@ -191,6 +194,10 @@ def check_seq(seq, stats):
             w.epoch += 1
         if "REGISTRY-ERROR" in obs:
             hits.append(hit("C04", seq, no, raw, obs[obs.index("REGISTRY-ERROR"):], "registry"))
+            if panic_seen or "panic" in obs:
+                hits.append(hit("C10", seq, no, raw, "after / during a panic a component value was dropped twice, dropped without having been created, or found corrupted: " + obs[obs.index("REGISTRY-ERROR"):][:200], "registry-after-panic"))
+        if obs.startswith("panic") or "end=panic" in obs:
+            panic_seen = True
         if any(s[3] for s in summary):
             hits.append(hit("C12", seq, no, raw, "is_empty()/entities().len() disagree with len()", "len-self"))
         # ---- C12: len equals tracked live count; capacity monotone and >= len
@@ -234,6 +241,8 @@ def check_seq(seq, stats):
                 if not (wrapping and preset_used):
                     if words in w.issued:
                         hits.append(hit("C08", seq, no, raw, f"handle {words} issued twice in one world", "reissue"))
+                        if w.clone_of is not None and words in w.issued_before_clone:
+                            hits.append(hit("C13", seq, no, raw, f"create in a clone returned {words}, a handle its source had already issued before cloning: the clone did not take over the generation state of the source", "clone-reissues"))
                 w.issued.append(words)
                 w.dead.discard(words) if (wrapping and preset_used) else None
                 k = int(words.split(".")[0])
@@ -500,6 +509,8 @@ def check_seq(seq, stats):
                                 toks = [x.split(".")[0] for x in v.split(":", 1)[1].split(",")]
                                 if toks != exp:
                                     hits.append(hit("C09", seq, no, raw, f"direct handle {di['words']} designates components {toks[:4]}, it was issued for the entity owning {exp[:4]}", "direct-wrong-entity"))
+                                    hits.append(hit("C02", seq, no, raw, f"the direct handle {di['words']} obtained for an entity reads components {toks[:4]}; the entity owns {exp[:4]}", "direct-not-own-row"))
+                                    hits.append(hit("C01", seq, no, raw, f"to_direct of a live handle returned {di['words']}, which designates another entity (components {toks[:4]} instead of {exp[:4]})", "todirect-wrong-entity"))
                                 break
             if hv and hv[0] == "e" and w is not None and not w.unknown_destroy:
                 words, static, mismatch = hv[1], hv[2], hv[3]
@@ -542,6 +553,11 @@ def check_seq(seq, stats):
                             hits.append(hit("C03", seq, no, raw, f"forged value {words} accepted by {name} although not bit-identical to a live handle", "forged-accepted"))
                     if expect and not acc:
                         hits.append(hit("C01", seq, no, raw, f"live handle {words} rejected by {name}", "live-rejected"))
+                    if acc and alive and name in ("td", "twd", "yd", "ywd") and "." in v:
+                        # to_direct designates the position resolve reports for the same handle
+                        tr_ = f.get("tr") if name.startswith("t") else f.get("yr")
+                        if tr_ is not None and accepted("tr", tr_) and tr_.isdigit() and (int(v.split(".")[0]) >> 8) != int(tr_):
+                            hits.append(hit("C01", seq, no, raw, f"{name} of the live handle {words} is {v} (dense index {int(v.split('.')[0]) >> 8}), but resolve places the entity at index {tr_}", "todirect-wrong-entity"))
                     if acc and alive and name[-1] in ("v", "b") and "@" in v:
                         ent = v.split("@")[0]
                         if ent != words:
@@ -583,7 +599,7 @@ def check_seq(seq, stats):
         elif kind in ("iter", "iterb"):
             stats["iters"] += 1
             if w is not None:
-                hits.extend(check_iter(seq, no, op, obs, raw, w))
+                hits.extend(check_iter(seq, no, op, obs, raw, w, archs))
                 query_values(seq, no, op, obs, raw, w, hits)
         elif kind in ("find", "findb"):
             if w is not None:
@@ -649,6 +665,7 @@ def check_iterd(seq, no, op, obs, raw, w, archs, ids):
             dec = t[4:]
     visited = []
     panicked = m.group(3).startswith("panic")
+    live_before = None if w.unknown_destroy else {wd: a for wd, (a, _) in w.live.items()}
     for i, c in enumerate(calls):
         ent = None
         toks = []
@@ -677,6 +694,18 @@ def check_iterd(seq, no, op, obs, raw, w, archs, ids):
     known = [v for v in visited if v is not None]
     if len(set(known)) != len(known):
         hits.append(hit("C07", seq, no, raw, "an entity was visited twice", "visit-twice"))
+    # the closure runs for EVERY matching entity alive when the loop started, unless a Break /
+    # BreakDestroy (or a panic) ended the loop
+    stopped = panicked or any((dec[i] if i < len(dec) else "c") in "bx" for i in range(len(calls)))
+    if not stopped and live_before is not None and all(v is not None for v in visited):
+        for a in range(len(archs)):
+            if query_cells(seq, op[1], a, archs, False) is None:
+                continue
+            want = {wd for wd, aa in live_before.items() if aa == a}
+            missed = want - set(known)
+            if missed:
+                hits.append(hit("C07", seq, no, raw, f"the loop ran to completion without calling the closure for {sorted(missed)[:4]} of archetype {a}, alive when it started and matching the query", "missed-entity"))
+                break
     return hits
 
 
@@ -748,7 +777,7 @@ def query_values(seq, no, op, obs, raw, w, hits):
 
 # ----------------------------------------------------------------------------- C06
 
-def check_iter(seq, no, op, obs, raw, w):
+def check_iter(seq, no, op, obs, raw, w, archs=None):
     """C06 over one ecs_iter!/ecs_iter_borrow! observation."""
     hits = []
     m = re.match(r"n=(\d+) \[(.*?)\] end=(\S+)", obs)
@@ -795,6 +824,13 @@ def check_iter(seq, no, op, obs, raw, w):
             nlive = sum(1 for (aa, _) in w.live.values() if aa == a)
             if cnt != nlive:
                 hits.append(hit("C06", seq, no, raw, f"a complete pass visited {cnt} entities of archetype {a}, which has {nlive} live entities", "missed-entity"))
+        # every archetype whose component set satisfies the query is visited, empty ones in between or not
+        if archs is not None:
+            for a in range(len(archs)):
+                if a not in per_arch and query_cells(seq, op[1], a, archs, False) is not None:
+                    nlive = sum(1 for (aa, _) in w.live.values() if aa == a)
+                    if nlive:
+                        hits.append(hit("C06", seq, no, raw, f"a complete pass visited no entity of archetype {a}, which satisfies the query and has {nlive} live entities", "missed-archetype"))
     return hits
 
 
